@@ -8,8 +8,10 @@ def part(name, pkg, test, **kw):
 
 PROPS = {
     "C01": {"level": "exploration", "parts": [part("dump", "stack", "TestVerifC01")]},
-    "C02": {"level": "model_checking", "parts": [part("bfs", "stack", "TestVerifC02"), part("streams", "stack", "TestVerifC02")]},
-    "C03": {"level": "exploration", "parts": [part("bfs", "stack", "TestVerifC03"), part("edits", "stack", "TestVerifC03")]},
+    "C02": {"level": "model_checking", "parts": [part("bfs", "stack", "TestVerifC02"), part("streams", "stack", "TestVerifC02"),
+        part("cli", "internal", "TestVerifC02CLI", needs_pp=True)]},
+    "C03": {"level": "exploration", "parts": [part("bfs", "stack", "TestVerifC03"), part("edits", "stack", "TestVerifC03"),
+        part("cli", "internal", "TestVerifC03CLI", needs_pp=True)]},
     "C04": {"level": "exploration", "parts": [part("agg", "stack", "TestVerifC04")]},
     "C05": {"level": "exploration", "parts": [part("agg", "stack", "TestVerifC05")]},
     "C13": {"level": "exploration", "parts": [part("order", "stack", "TestVerifC13")]},
@@ -28,7 +30,8 @@ PROPS = {
         part("small", "stack", "TestVerifC10", variant="smallbuf-64")]},
     "C11": {"level": "exploration", "parts": [
         part("real", "stack", "TestVerifC11"),
-        part("small", "stack", "TestVerifC11", variant="smallbuf-64")]},
+        part("small", "stack", "TestVerifC11", variant="smallbuf-64"),
+        part("cli", "internal", "TestVerifC11CLI", needs_pp=True, shards=1)]},
     "C16": {"level": "exploration", "parts": [part("console", "internal", "TestVerifC16", needs_pp=True)]},
     "C15": {"level": "exploration", "parts": [part("names", "stack", "TestVerifC15")]},
     "C12": {"level": "exploration", "parts": [part("agg", "stack", "TestVerifC12")]},
